@@ -398,7 +398,7 @@ Qed.
 (* ---------- step ---------- *)
 Definition mk_event (s1 : st) (ns : server) (tcp : bool) (backoff T : Z) (e : env) (ob : oreply) (clock2 : Z) : event :=
   {| ev_server := sv_id ns; ev_tcp := tcp; ev_backoff := backoff; ev_timeout := T;
-     ev_qname := s_qname s1; ev_idx := e_pos e; ev_start := e_clock e + backoff; ev_end := clock2; ev_left := length (s_qnames s1); ev_obs := ob |}.
+     ev_qname := s_qname s1; ev_idx := e_pos e; ev_start := e_clock e + backoff; ev_end := clock2; ev_left := length (s_qnames s1); ev_level := s_backoff s1; ev_obs := ob |}.
 
 Definition question_of (c : cfg) (s : st) : question :=
   {| q_name := s_qname s; q_class := c_rdclass c; q_type := c_rdtype c |}.
